@@ -144,29 +144,39 @@ func (pingTransport) RoundTrip(req *http.Request) (*http.Response, error) {
 var LeakyBubbles atomic.Int64
 
 func RunInBubble(t *testing.T, plan *Plan, sched []string, arm func(e *Engine)) (out *Outcome) {
-	defer func() {
-		if r := recover(); r != nil {
-			s := fmt.Sprint(r)
-			if out != nil && strings.Contains(s, "deadlock") {
-				// leaked goroutines of abandoned / stuck tasks at the end of the bubble
-				LeakyBubbles.Add(1)
-				if os.Getenv("VSIM_DUMP_LEAK") != "" && LeakyBubbles.Load() <= 3 {
-					buf := make([]byte, 1<<20)
-					buf = buf[:runtime.Stack(buf, true)]
-					fmt.Fprintf(os.Stderr, "LEAK DUMP\n%s\nEND LEAK DUMP\n", buf)
+	body := func(tt *testing.T) {
+		defer func() {
+			if r := recover(); r != nil {
+				s := fmt.Sprint(r)
+				if out != nil && strings.Contains(s, "deadlock") {
+					// leaked goroutines of abandoned / stuck tasks at the end of the bubble
+					LeakyBubbles.Add(1)
+					if os.Getenv("VSIM_DUMP_LEAK") != "" && LeakyBubbles.Load() <= 3 {
+						buf := make([]byte, 1<<20)
+						buf = buf[:runtime.Stack(buf, true)]
+						fmt.Fprintf(os.Stderr, "LEAK DUMP\n%s\nEND LEAK DUMP\n", buf)
+					}
+					return
 				}
-				return
+				panic(r)
 			}
-			panic(r)
-		}
-	}()
-	synctest.Test(t, func(t *testing.T) {
-		e := newEngine(plan, sched)
-		if arm != nil {
-			arm(e)
-		}
-		out = e.run()
-	})
+		}()
+		synctest.Test(tt, func(*testing.T) {
+			e := newEngine(plan, sched)
+			if arm != nil {
+				arm(e)
+			}
+			out = e.run()
+		})
+	}
+	if RaceEnabled {
+		// under the race detector a bubble that ends cleanly after a report (the harness' own,
+		// filtered later, or a real one) makes synctest.Test end the calling test with FailNow:
+		// give every run a subtest of its own to end
+		t.Run("run", body)
+	} else {
+		body(t)
+	}
 	return out
 }
 
@@ -234,8 +244,14 @@ func (e *Engine) shard(key []byte, zones uint64) uint64 {
 
 //go:norace
 func (e *Engine) listen(addr string, h http.Handler) error {
+	// (hidden from the race detector like the scheduler's own hand-offs: the lock must not
+	// order the accesses of the tasks that pass through here)
+	raceDisable()
 	e.hookMu.Lock()
-	defer e.hookMu.Unlock()
+	defer func() {
+		e.hookMu.Unlock()
+		raceEnable()
+	}()
 	if _, ok := e.listeners[addr]; ok {
 		return errors.New("listen tcp " + addr + ": bind: address already in use")
 	}
@@ -245,8 +261,14 @@ func (e *Engine) listen(addr string, h http.Handler) error {
 
 //go:norace
 func (e *Engine) closeListener(addr string, h http.Handler) {
+	// (hidden from the race detector like the scheduler's own hand-offs: the lock must not
+	// order the accesses of the tasks that pass through here)
+	raceDisable()
 	e.hookMu.Lock()
-	defer e.hookMu.Unlock()
+	defer func() {
+		e.hookMu.Unlock()
+		raceEnable()
+	}()
 	if cur, ok := e.listeners[addr]; ok && cur == h {
 		delete(e.listeners, addr)
 		e.closedAddrs = append(e.closedAddrs, addr)
@@ -255,8 +277,14 @@ func (e *Engine) closeListener(addr string, h http.Handler) {
 
 //go:norace
 func (e *Engine) drainClosedAddrs() []string {
+	// (hidden from the race detector like the scheduler's own hand-offs: the lock must not
+	// order the accesses of the tasks that pass through here)
+	raceDisable()
 	e.hookMu.Lock()
-	defer e.hookMu.Unlock()
+	defer func() {
+		e.hookMu.Unlock()
+		raceEnable()
+	}()
 	c := e.closedAddrs
 	e.closedAddrs = nil
 	sort.Strings(c)
@@ -265,15 +293,27 @@ func (e *Engine) drainClosedAddrs() []string {
 
 //go:norace
 func (e *Engine) handler(addr string) http.Handler {
+	// (hidden from the race detector like the scheduler's own hand-offs: the lock must not
+	// order the accesses of the tasks that pass through here)
+	raceDisable()
 	e.hookMu.Lock()
-	defer e.hookMu.Unlock()
+	defer func() {
+		e.hookMu.Unlock()
+		raceEnable()
+	}()
 	return e.listeners[addr]
 }
 
 //go:norace
 func (e *Engine) clearListeners() {
+	// (hidden from the race detector like the scheduler's own hand-offs: the lock must not
+	// order the accesses of the tasks that pass through here)
+	raceDisable()
 	e.hookMu.Lock()
-	defer e.hookMu.Unlock()
+	defer func() {
+		e.hookMu.Unlock()
+		raceEnable()
+	}()
 	for k := range e.listeners {
 		delete(e.listeners, k)
 	}
